@@ -131,8 +131,9 @@ class XMLDocParser:
 
         # Filter out the members which don't match the method_args_names
         for maybe_member_def in maybe_member_defs:
+            argsstring = maybe_member_def.find('argsstring')
             self.print_if_verbose(
-                f"Investigating member_def with argstring {maybe_member_def.find('argsstring').text}"
+                f"Investigating member_def with argstring {argsstring.text if argsstring is not None else ''}"
             )
             # Find the number of required parameters and the number of total parameters from the
             # Doxygen XML for this member_def
@@ -186,7 +187,10 @@ class XMLDocParser:
 
             # Remember which parameters to ignore, if any
             for i in range(len(method_args_names), num_tot_params):
-                ignored_params.append(params[i].find("declname").text)
+                declname = params[i].find("declname")
+                # Unnamed optional parameters have no <declname>
+                if declname is not None:
+                    ignored_params.append(declname.text)
 
         return member_defs, ignored_params
 
